@@ -81,6 +81,7 @@ type vh07Rq struct {
 	Names  map[string]string `json:"names"` // symbolic name -> entry
 	Conn   int               `json:"conn"`
 	Fid    string            `json:"fid"` // identity of the fidRef
+	Probe  *vhgProbe         `json:"probe,omitempty"` // lock states seen from inside the gated call (first request only)
 	Node   string            `json:"node"`
 	Entry  string            `json:"entry"`
 }
@@ -332,6 +333,8 @@ func vh07One(a, b *vh07Req, rel string, wait time.Duration, tries int) vh07Obs {
 			o.Kind, o.Why = "hang", "first request neither reached the backend nor returned"
 			return o
 		}
+		pr := g.probe
+		o.A.Probe = &pr
 		from := fs.logLen()
 		go func() { b.run(cb); close(doneB) }()
 		entered := fs.waitEnter(b.method, vh07GatePath(b, pb, "b"), from, wait, doneB)
